@@ -287,13 +287,10 @@ def real_C10(ctx, pexpect, thorough):
                 a, b = os.pipe()
                 fds += [a, b]
             try:
-                for what, fn in (('read_nonblocking', lambda: c.read_nonblocking(1, 0.1)), ('send', lambda: c.send(b'x')), ('expect', lambda: c.expect('x', timeout=0.1))):
-                    try:
-                        fn()
-                        ctx.hit('C10/io-after-close', '%s() after close() did not fail' % what, {'child': name})
-                        return
-                    except (ValueError, OSError, pexpect.ExceptionPexpect):
-                        pass
+                bad = io_after_close(pexpect, c)
+                if bad:
+                    ctx.hit('C10/io-after-close', 'pty spawn (%s child): %s' % (name, bad), {'child': name})
+                    return
             finally:
                 for f in fds:
                     try:
@@ -315,6 +312,7 @@ def real_C10(ctx, pexpect, thorough):
         bad = 'fdspawn.send() after close() succeeded'
     except (OSError, ValueError, pexpect.ExceptionPexpect):
         pass
+    bad = bad or io_after_close(pexpect, f)
     if f.isalive() or f.child_fd != -1 or not f.closed:
         bad = 'fdspawn after close(): isalive=%r child_fd=%r closed=%r' % (f.isalive(), f.child_fd, f.closed)
     for x in (w, r2, w2):
@@ -331,12 +329,34 @@ def real_C10(ctx, pexpect, thorough):
         bad = 'SocketSpawn.send() after close() succeeded'
     except (OSError, ValueError, pexpect.ExceptionPexpect):
         pass
+    bad = bad or io_after_close(pexpect, s)
     if s.isalive() or s.child_fd != -1 or not s.closed:
         bad = 'SocketSpawn after close(): isalive=%r child_fd=%r closed=%r' % (s.isalive(), s.child_fd, s.closed)
     b.close()
     if bad:
         ctx.hit('C10/socket-close', bad, {})
     ctx.oracle_stats['real_children'] = tried
+
+
+def io_after_close(pexpect, c):
+    """after close() every I/O call fails with an error: it neither returns normally nor reports EOF / TIMEOUT as if the
+    stream were still the child's (an end-of-file or a timeout would be a statement about a descriptor that is gone)"""
+    eof_before = bool(getattr(c, 'flag_eof', False))
+    calls = [('read_nonblocking', lambda: c.read_nonblocking(1, 0.1)), ('send', lambda: c.send(b'x')), ('sendline', lambda: c.sendline(b'x')),
+             ('expect', lambda: c.expect(b'x', timeout=0.1)), ('expect(EOF)', lambda: c.expect(pexpect.EOF, timeout=0.1)),
+             ('expect_exact([x, EOF, TIMEOUT])', lambda: c.expect_exact([b'x', pexpect.EOF, pexpect.TIMEOUT], timeout=0.1)),
+             ('read', lambda: c.read()), ('readline', lambda: c.readline())]
+    for what, fn in calls:
+        try:
+            r = fn()
+            return '%s after close() returned %r instead of failing' % (what, r)
+        except (pexpect.EOF, pexpect.TIMEOUT) as e:
+            return '%s after close() reported %s instead of failing with an error' % (what, type(e).__name__)
+        except (ValueError, OSError, pexpect.ExceptionPexpect):
+            pass
+    if getattr(c, 'flag_eof', False) and not eof_before:
+        return 'flag_eof became True after close() although the peer never closed'
+    return None
 
 
 def run_property(ctx, which, props_file):
